@@ -157,6 +157,14 @@ func (e *EDNS) ServeDNS(ctx context.Context, ch *middleware.Chain) {
 		ednsErrorBadVersion.Inc()
 		opt.SetVersion(0)
 
+		// The BADVERS reply is built on the request's additional section.
+		// Only a bare OPT may go back: not the client-subnet copy SetEdns0
+		// may have kept for forwarding, and not any other record the client
+		// put there — the reply is never measured against the UDP size the
+		// client advertised, so it must not grow with the query.
+		opt.Option = nil
+		req.Extra = []dns.RR{opt}
+
 		ch.CancelWithRcode(dns.RcodeBadVers, do)
 
 		return
@@ -316,6 +324,15 @@ func (w *ResponseWriter) WriteMsg(m *dns.Msg) error {
 			// request OPT, so a fresh one stands in.
 			opt = w.ensureOpt()
 			m.Extra = append(m.Extra, opt)
+		} else {
+			// The response brought an OPT along: the request's own,
+			// re-attached by the resolver, or a forwarded upstream's. Either
+			// way its options were not generated for this client. Only an
+			// Extended DNS Error is relayed; an upstream's COOKIE, NSID,
+			// PADDING or private-use options stop here, and so does any
+			// further OPT record — a reply carries exactly one.
+			m.Extra = keepOneOPT(m.Extra, opt)
+			opt.Option = keepRelayable(opt.Option)
 		}
 
 		// Set common OPT parameters
@@ -402,6 +419,44 @@ func keepOPTOnly(extra []dns.RR) []dns.RR {
 		}
 	}
 	return nil
+}
+
+// keepOneOPT returns extra without any OPT record other than keep. The
+// input is returned as is when there is nothing to drop; otherwise a fresh
+// slice, because the section may be shared with a cache entry.
+func keepOneOPT(extra []dns.RR, keep *dns.OPT) []dns.RR {
+	drop := false
+	for _, rr := range extra {
+		if opt, ok := rr.(*dns.OPT); ok && opt != keep {
+			drop = true
+			break
+		}
+	}
+	if !drop {
+		return extra
+	}
+	kept := make([]dns.RR, 0, len(extra)-1)
+	for _, rr := range extra {
+		if opt, ok := rr.(*dns.OPT); ok && opt != keep {
+			continue
+		}
+		kept = append(kept, rr)
+	}
+	return kept
+}
+
+// keepRelayable returns opts reduced to the options of a downstream
+// response this server passes on to a client: Extended DNS Errors.
+// Everything the client may receive besides — cookie, NSID, keepalive — is
+// generated here, per client, after this filter ran.
+func keepRelayable(opts []dns.EDNS0) []dns.EDNS0 {
+	keep := opts[:0]
+	for _, o := range opts {
+		if _, isEDE := o.(*dns.EDNS0_EDE); isEDE {
+			keep = append(keep, o)
+		}
+	}
+	return keep
 }
 
 // stripECS returns opts with every EDNS0_SUBNET entry removed.
